@@ -156,6 +156,14 @@ class Runtime {
           const old = N.attrs.find((a) => a[0] === 'r:' + name)
           if (old) model = old[1].model
         }
+        // as the runtime: while binding-map updaters run, a property change of a component is only queued; the wrapper
+        // applies the queue of an element when the updater reports the element through its `elementUpdated` callback
+        // (the reference runtime takes every element for a component: the most demanding reading)
+        if (self.bmMode && N) {
+          if (!N.pending) N.pending = []
+          N.pending.push(() => set(N, 'r', name, { v, model, lv: generalPath }))
+          return
+        }
         set(N, 'r', name, { v, model, lv: generalPath })
       },
       a(N, name, v) { self.rec('a', [name, v]); set(N, 'a', name, { v }) },
@@ -418,7 +426,7 @@ class Runtime {
         const updaters = gen[field]
         if (!updaters) return false
         self.lastTree = 'binding-map'
-        for (let i = 0; i < updaters.length; i += 1) updaters[i](data, () => {}, (node, v) => { node.text = v })
+        self.runUpdaters(updaters, data, field)
         return true
       },
     }
@@ -428,11 +436,34 @@ class Runtime {
   bindingMapUpdate(field, data) {
     const updaters = this.bindingMap && this.bindingMap[field]
     if (!updaters) return false
-    for (let i = 0; i < updaters.length; i += 1) {
-      if (!updaters[i]) throw new Error('binding map slot ' + i + ' of field ' + field + ' is empty')
-      updaters[i](data, () => {}, (node, v) => { node.text = v })
-    }
+    this.runUpdaters(updaters, data, field)
     return true
+  }
+
+  // ProcGenWrapper.bindingMapUpdate: the queued property changes of an element are applied when a different element is
+  // reported, and those of the last reported element at the end
+  runUpdaters(updaters, data, field) {
+    const apply = (n) => {
+      if (n && n.pending) {
+        const q = n.pending
+        delete n.pending
+        for (const f of q) f()
+      }
+    }
+    let prev = null
+    this.bmMode = true
+    try {
+      for (let i = 0; i < updaters.length; i += 1) {
+        if (!updaters[i]) throw new Error('binding map slot ' + i + ' of field ' + field + ' is empty')
+        updaters[i](data, (elem) => {
+          if (prev !== null && elem !== prev) apply(prev)
+          prev = elem
+        }, (node, v) => { node.text = v })
+      }
+    } finally {
+      this.bmMode = false
+    }
+    apply(prev)
   }
 }
 
